@@ -1,0 +1,961 @@
+//! Verification hooks (compiled only with `--cfg getong_stateright_verif`).
+//!
+//! Trampolines to an externally installed deterministic simulator. With no simulator installed,
+//! or on a thread that does not belong to one, every item defers to the real primitive.
+#![allow(missing_docs, clippy::new_without_default)]
+
+use std::sync::{Arc, RwLock};
+use std::time::Duration;
+
+/// What a simulator must provide. All ids are opaque to the simulator.
+pub trait Hooks: Send + Sync {
+    /// A scheduling point before an operation on shared state (`what` names the operation).
+    fn yield_point(&self, what: &'static str, obj: usize);
+    fn mutex_lock(&self, id: usize);
+    fn mutex_unlock(&self, id: usize);
+    fn cv_wait(&self, cv: usize, mutex: usize);
+    fn cv_notify(&self, cv: usize, all: bool);
+    /// Called by the spawner; returns the child's token.
+    fn spawn_token(&self, name: Option<&str>) -> u64;
+    fn thread_enter(&self, token: u64);
+    fn thread_exit(&self, token: u64);
+    fn join_wait(&self, token: u64);
+    /// Whether the thread with this token has left the simulation (a scheduling point).
+    fn thread_finished(&self, token: u64) -> bool;
+    fn now(&self, wall: bool) -> Duration;
+    fn sleep(&self, d: Duration);
+    fn block_size(&self, default: usize) -> usize;
+    fn chan_new(&self, bound: Option<usize>) -> usize;
+    /// Blocks (in simulation) until a slot is free; `Err` if disconnected.
+    fn chan_send(&self, ch: usize) -> Result<(), ()>;
+    /// Blocks (in simulation) until a message is available; `Err` if disconnected and empty.
+    fn chan_recv(&self, ch: usize) -> Result<(), ()>;
+    fn chan_drop_sender(&self, ch: usize);
+    fn chan_drop_receiver(&self, ch: usize);
+    fn rng_u64(&self) -> u64;
+    fn udp_bind(&self, addr: std::net::SocketAddrV4) -> std::io::Result<usize>;
+    fn udp_send_to(&self, sock: usize, buf: &[u8], dst: std::net::SocketAddr) -> std::io::Result<usize>;
+    fn udp_recv_from(
+        &self,
+        sock: usize,
+        buf: &mut [u8],
+        timeout: Option<Duration>,
+    ) -> std::io::Result<(usize, std::net::SocketAddr)>;
+    fn udp_close(&self, sock: usize);
+    fn scope_wait_all(&self, tokens: &[u64]);
+}
+
+static HOOKS: RwLock<Option<Arc<dyn Hooks>>> = RwLock::new(None);
+thread_local!(static IN_SIM: std::cell::Cell<bool> = const { std::cell::Cell::new(false) });
+thread_local!(static GUARD_DEPTH: std::cell::Cell<usize> = const { std::cell::Cell::new(0) });
+
+/// Installs (or removes) the simulator for this process.
+pub fn install(h: Option<Arc<dyn Hooks>>) {
+    *HOOKS.write().unwrap() = h;
+}
+/// Marks the calling thread as belonging (or not) to the installed simulation.
+pub fn set_in_sim(b: bool) {
+    IN_SIM.with(|c| c.set(b));
+}
+pub fn hooks() -> Option<Arc<dyn Hooks>> {
+    if IN_SIM.with(|c| c.get()) {
+        HOOKS.read().unwrap().clone()
+    } else {
+        None
+    }
+}
+fn yield_point(what: &'static str, obj: usize) {
+    if GUARD_DEPTH.with(|d| d.get()) == 0 {
+        if let Some(h) = hooks() {
+            h.yield_point(what, obj)
+        }
+    }
+}
+pub fn block_size(default: usize) -> usize {
+    hooks().map(|h| h.block_size(default)).unwrap_or(default)
+}
+static NEXT_ID: std::sync::atomic::AtomicUsize = std::sync::atomic::AtomicUsize::new(1);
+fn next_id() -> usize {
+    NEXT_ID.fetch_add(1, std::sync::atomic::Ordering::Relaxed)
+}
+pub struct DepthGuard;
+impl DepthGuard {
+    fn new() -> Self {
+        GUARD_DEPTH.with(|d| d.set(d.get() + 1));
+        DepthGuard
+    }
+}
+impl Drop for DepthGuard {
+    fn drop(&mut self) {
+        GUARD_DEPTH.with(|d| d.set(d.get() - 1));
+    }
+}
+
+// ------------------------------------------------------------------------------------------ std
+pub mod std_shim {
+    pub use ::std::*;
+
+    pub mod thread {
+        pub use ::std::thread::*;
+        use crate::verif_hooks as vh;
+
+        struct ExitOnDrop(::std::sync::Arc<dyn vh::Hooks>, u64);
+        impl Drop for ExitOnDrop {
+            fn drop(&mut self) {
+                self.0.thread_exit(self.1);
+                vh::set_in_sim(false);
+            }
+        }
+        fn wrap<F, T>(name: Option<&str>, f: F) -> (Option<u64>, impl FnOnce() -> T + Send + 'static)
+        where
+            F: FnOnce() -> T + Send + 'static,
+            T: Send + 'static,
+        {
+            let h = vh::hooks();
+            let token = h.as_ref().map(|h| h.spawn_token(name));
+            (token, move || {
+                let _exit = match (h, token) {
+                    (Some(h), Some(t)) => {
+                        vh::set_in_sim(true);
+                        h.thread_enter(t);
+                        Some(ExitOnDrop(h, t))
+                    }
+                    _ => None,
+                };
+                f()
+            })
+        }
+
+        pub struct JoinHandle<T>(::std::thread::JoinHandle<T>, Option<u64>);
+        impl<T> JoinHandle<T> {
+            pub fn join(self) -> ::std::thread::Result<T> {
+                if let (Some(h), Some(t)) = (vh::hooks(), self.1) {
+                    h.join_wait(t);
+                }
+                self.0.join()
+            }
+            pub fn is_finished(&self) -> bool {
+                if let (Some(h), Some(t)) = (vh::hooks(), self.1) {
+                    return h.thread_finished(t);
+                }
+                self.0.is_finished()
+            }
+            pub fn thread(&self) -> &::std::thread::Thread {
+                self.0.thread()
+            }
+        }
+        pub struct Builder(::std::thread::Builder, Option<String>);
+        impl Builder {
+            pub fn new() -> Self {
+                Builder(::std::thread::Builder::new(), None)
+            }
+            pub fn name(self, name: String) -> Self {
+                Builder(self.0.name(name.clone()), Some(name))
+            }
+            pub fn stack_size(self, size: usize) -> Self {
+                Builder(self.0.stack_size(size), self.1)
+            }
+            pub fn spawn<F, T>(self, f: F) -> ::std::io::Result<JoinHandle<T>>
+            where
+                F: FnOnce() -> T + Send + 'static,
+                T: Send + 'static,
+            {
+                let (token, f) = wrap(self.1.as_deref(), f);
+                self.0.spawn(f).map(|h| JoinHandle(h, token))
+            }
+        }
+        pub fn spawn<F, T>(f: F) -> JoinHandle<T>
+        where
+            F: FnOnce() -> T + Send + 'static,
+            T: Send + 'static,
+        {
+            Builder::new().spawn(f).expect("failed to spawn thread")
+        }
+        pub fn sleep(d: ::std::time::Duration) {
+            match vh::hooks() {
+                Some(h) => h.sleep(d),
+                None => ::std::thread::sleep(d),
+            }
+        }
+    }
+
+    pub mod time {
+        pub use ::std::time::{Duration, SystemTimeError, TryFromFloatSecsError, UNIX_EPOCH};
+        use crate::verif_hooks as vh;
+
+        macro_rules! clock {
+            ($name:ident, $wall:expr) => {
+                #[derive(Clone, Copy, Debug, PartialEq, Eq, PartialOrd, Ord, Hash)]
+                pub enum $name {
+                    Real(::std::time::$name),
+                    Virtual(Duration),
+                }
+                impl $name {
+                    pub fn now() -> Self {
+                        match vh::hooks() {
+                            Some(h) => $name::Virtual(h.now($wall)),
+                            None => $name::Real(::std::time::$name::now()),
+                        }
+                    }
+                    pub fn checked_add(&self, d: Duration) -> Option<Self> {
+                        match self {
+                            $name::Real(t) => t.checked_add(d).map($name::Real),
+                            $name::Virtual(t) => t.checked_add(d).map($name::Virtual),
+                        }
+                    }
+                    pub fn checked_sub(&self, d: Duration) -> Option<Self> {
+                        match self {
+                            $name::Real(t) => t.checked_sub(d).map($name::Real),
+                            $name::Virtual(t) => t.checked_sub(d).map($name::Virtual),
+                        }
+                    }
+                }
+                impl ::std::ops::Add<Duration> for $name {
+                    type Output = $name;
+                    fn add(self, d: Duration) -> $name {
+                        self.checked_add(d).expect("overflow when adding duration to instant")
+                    }
+                }
+                impl ::std::ops::Sub<Duration> for $name {
+                    type Output = $name;
+                    fn sub(self, d: Duration) -> $name {
+                        self.checked_sub(d).expect("overflow when subtracting duration from instant")
+                    }
+                }
+                impl ::std::ops::AddAssign<Duration> for $name {
+                    fn add_assign(&mut self, d: Duration) {
+                        *self = *self + d;
+                    }
+                }
+            };
+        }
+        clock!(SystemTime, true);
+        clock!(Instant, false);
+        impl Instant {
+            pub fn checked_duration_since(&self, earlier: Instant) -> Option<Duration> {
+                match (self, earlier) {
+                    (Instant::Real(a), Instant::Real(b)) => a.checked_duration_since(b),
+                    (Instant::Virtual(a), Instant::Virtual(b)) => a.checked_sub(b),
+                    _ => panic!("mixed real and virtual instants"),
+                }
+            }
+            pub fn duration_since(&self, earlier: Instant) -> Duration {
+                self.checked_duration_since(earlier).unwrap_or_default()
+            }
+            pub fn saturating_duration_since(&self, earlier: Instant) -> Duration {
+                self.checked_duration_since(earlier).unwrap_or_default()
+            }
+            pub fn elapsed(&self) -> Duration {
+                Instant::now().duration_since(*self)
+            }
+        }
+        impl SystemTime {
+            pub fn duration_since(&self, earlier: SystemTime) -> Result<Duration, Duration> {
+                match (self, earlier) {
+                    (SystemTime::Real(a), SystemTime::Real(b)) => {
+                        a.duration_since(b).map_err(|e| e.duration())
+                    }
+                    (SystemTime::Virtual(a), SystemTime::Virtual(b)) => {
+                        a.checked_sub(b).ok_or_else(|| b - *a)
+                    }
+                    _ => panic!("mixed real and virtual times"),
+                }
+            }
+            pub fn elapsed(&self) -> Result<Duration, Duration> {
+                SystemTime::now().duration_since(*self)
+            }
+        }
+    }
+
+    pub mod sync {
+        pub use ::std::sync::*;
+
+        pub mod atomic {
+            pub use ::std::sync::atomic::*;
+            use crate::verif_hooks as vh;
+            macro_rules! atomic {
+                ($name:ident, $t:ty) => {
+                    #[derive(Debug, Default)]
+                    pub struct $name(::std::sync::atomic::$name);
+                    impl $name {
+                        pub const fn new(v: $t) -> Self {
+                            $name(::std::sync::atomic::$name::new(v))
+                        }
+                        fn y(&self, what: &'static str) {
+                            vh::yield_point(what, self as *const _ as usize);
+                        }
+                        pub fn load(&self, o: Ordering) -> $t {
+                            self.y("atomic.load");
+                            self.0.load(o)
+                        }
+                        pub fn store(&self, v: $t, o: Ordering) {
+                            self.y("atomic.store");
+                            self.0.store(v, o)
+                        }
+                        pub fn swap(&self, v: $t, o: Ordering) -> $t {
+                            self.y("atomic.swap");
+                            self.0.swap(v, o)
+                        }
+                        pub fn compare_exchange(
+                            &self,
+                            c: $t,
+                            n: $t,
+                            s: Ordering,
+                            f: Ordering,
+                        ) -> Result<$t, $t> {
+                            self.y("atomic.cas");
+                            self.0.compare_exchange(c, n, s, f)
+                        }
+                        pub fn compare_exchange_weak(
+                            &self,
+                            c: $t,
+                            n: $t,
+                            s: Ordering,
+                            f: Ordering,
+                        ) -> Result<$t, $t> {
+                            self.y("atomic.cas");
+                            self.0.compare_exchange(c, n, s, f)
+                        }
+                    }
+                    impl ::std::ops::Deref for $name {
+                        type Target = ::std::sync::atomic::$name;
+                        fn deref(&self) -> &Self::Target {
+                            &self.0
+                        }
+                    }
+                };
+            }
+            atomic!(AtomicUsize, usize);
+            atomic!(AtomicBool, bool);
+            impl AtomicUsize {
+                pub fn fetch_add(&self, v: usize, o: Ordering) -> usize {
+                    self.y("atomic.fetch_add");
+                    self.0.fetch_add(v, o)
+                }
+                pub fn fetch_sub(&self, v: usize, o: Ordering) -> usize {
+                    self.y("atomic.fetch_sub");
+                    self.0.fetch_sub(v, o)
+                }
+                pub fn fetch_max(&self, v: usize, o: Ordering) -> usize {
+                    self.y("atomic.fetch_max");
+                    self.0.fetch_max(v, o)
+                }
+            }
+        }
+
+        pub mod mpsc {
+            pub use ::std::sync::mpsc::{RecvError, SendError, TryRecvError};
+            use crate::verif_hooks as vh;
+            use ::std::sync::mpsc as real;
+
+            enum Tx<T> {
+                Unbounded(real::Sender<T>),
+                Bounded(real::SyncSender<T>),
+            }
+            struct TxInner<T> {
+                tx: Tx<T>,
+                ch: usize,
+            }
+            impl<T> Drop for TxInner<T> {
+                fn drop(&mut self) {
+                    if let Some(h) = vh::hooks() {
+                        h.chan_drop_sender(self.ch);
+                    }
+                }
+            }
+            pub struct Sender<T>(::std::sync::Arc<TxInner<T>>);
+            pub struct SyncSender<T>(::std::sync::Arc<TxInner<T>>);
+            pub struct Receiver<T> {
+                rx: real::Receiver<T>,
+                ch: usize,
+            }
+            impl<T> Clone for Sender<T> {
+                fn clone(&self) -> Self {
+                    Sender(self.0.clone())
+                }
+            }
+            impl<T> Clone for SyncSender<T> {
+                fn clone(&self) -> Self {
+                    SyncSender(self.0.clone())
+                }
+            }
+            fn send<T>(inner: &TxInner<T>, t: T) -> Result<(), SendError<T>> {
+                if let Some(h) = vh::hooks() {
+                    if h.chan_send(inner.ch).is_err() {
+                        return Err(SendError(t));
+                    }
+                }
+                match &inner.tx {
+                    Tx::Unbounded(s) => s.send(t),
+                    Tx::Bounded(s) => s.send(t),
+                }
+            }
+            impl<T> Sender<T> {
+                pub fn send(&self, t: T) -> Result<(), SendError<T>> {
+                    send(&self.0, t)
+                }
+            }
+            impl<T> SyncSender<T> {
+                pub fn send(&self, t: T) -> Result<(), SendError<T>> {
+                    send(&self.0, t)
+                }
+            }
+            impl<T> Receiver<T> {
+                pub fn recv(&self) -> Result<T, RecvError> {
+                    if let Some(h) = vh::hooks() {
+                        if h.chan_recv(self.ch).is_err() {
+                            return Err(RecvError);
+                        }
+                    }
+                    self.rx.recv()
+                }
+                pub fn try_recv(&self) -> Result<T, TryRecvError> {
+                    vh::yield_point("chan.try_recv", self.ch);
+                    self.rx.try_recv()
+                }
+                pub fn iter(&self) -> Iter<'_, T> {
+                    Iter(self)
+                }
+            }
+            impl<T> Drop for Receiver<T> {
+                fn drop(&mut self) {
+                    if let Some(h) = vh::hooks() {
+                        h.chan_drop_receiver(self.ch);
+                    }
+                }
+            }
+            pub struct Iter<'a, T>(&'a Receiver<T>);
+            impl<'a, T> Iterator for Iter<'a, T> {
+                type Item = T;
+                fn next(&mut self) -> Option<T> {
+                    self.0.recv().ok()
+                }
+            }
+            pub struct IntoIter<T>(Receiver<T>);
+            impl<T> Iterator for IntoIter<T> {
+                type Item = T;
+                fn next(&mut self) -> Option<T> {
+                    self.0.recv().ok()
+                }
+            }
+            impl<T> IntoIterator for Receiver<T> {
+                type Item = T;
+                type IntoIter = IntoIter<T>;
+                fn into_iter(self) -> IntoIter<T> {
+                    IntoIter(self)
+                }
+            }
+            impl<'a, T> IntoIterator for &'a Receiver<T> {
+                type Item = T;
+                type IntoIter = Iter<'a, T>;
+                fn into_iter(self) -> Iter<'a, T> {
+                    self.iter()
+                }
+            }
+            fn new_ch(bound: Option<usize>) -> usize {
+                vh::hooks().map(|h| h.chan_new(bound)).unwrap_or(0)
+            }
+            pub fn channel<T>() -> (Sender<T>, Receiver<T>) {
+                let (tx, rx) = real::channel();
+                let ch = new_ch(None);
+                (
+                    Sender(::std::sync::Arc::new(TxInner { tx: Tx::Unbounded(tx), ch })),
+                    Receiver { rx, ch },
+                )
+            }
+            pub fn sync_channel<T>(bound: usize) -> (SyncSender<T>, Receiver<T>) {
+                let (tx, rx) = real::sync_channel(bound);
+                let ch = new_ch(Some(bound));
+                (
+                    SyncSender(::std::sync::Arc::new(TxInner { tx: Tx::Bounded(tx), ch })),
+                    Receiver { rx, ch },
+                )
+            }
+        }
+    }
+
+    pub mod net {
+        pub use ::std::net::*;
+        use crate::verif_hooks as vh;
+        use ::std::io;
+        use ::std::time::Duration;
+
+        pub enum UdpSocket {
+            Real(::std::net::UdpSocket),
+            Virtual { sock: usize, timeout: ::std::sync::Mutex<Option<Duration>>, addr: SocketAddrV4 },
+        }
+        impl UdpSocket {
+            pub fn bind(addr: SocketAddrV4) -> io::Result<UdpSocket> {
+                match vh::hooks() {
+                    Some(h) => h.udp_bind(addr).map(|sock| UdpSocket::Virtual {
+                        sock,
+                        timeout: ::std::sync::Mutex::new(None),
+                        addr,
+                    }),
+                    None => ::std::net::UdpSocket::bind(addr).map(UdpSocket::Real),
+                }
+            }
+            pub fn set_read_timeout(&self, dur: Option<Duration>) -> io::Result<()> {
+                match self {
+                    UdpSocket::Real(s) => s.set_read_timeout(dur),
+                    UdpSocket::Virtual { timeout, .. } => {
+                        if dur == Some(Duration::ZERO) {
+                            return Err(io::Error::new(
+                                io::ErrorKind::InvalidInput,
+                                "cannot set a 0 duration timeout",
+                            ));
+                        }
+                        *timeout.lock().unwrap() = dur;
+                        Ok(())
+                    }
+                }
+            }
+            pub fn recv_from(&self, buf: &mut [u8]) -> io::Result<(usize, SocketAddr)> {
+                match self {
+                    UdpSocket::Real(s) => s.recv_from(buf),
+                    UdpSocket::Virtual { sock, timeout, .. } => {
+                        let t = *timeout.lock().unwrap();
+                        vh::hooks().expect("virtual socket outside simulation").udp_recv_from(*sock, buf, t)
+                    }
+                }
+            }
+            pub fn send_to(&self, buf: &[u8], dst: SocketAddrV4) -> io::Result<usize> {
+                match self {
+                    UdpSocket::Real(s) => s.send_to(buf, dst),
+                    UdpSocket::Virtual { sock, .. } => vh::hooks()
+                        .expect("virtual socket outside simulation")
+                        .udp_send_to(*sock, buf, SocketAddr::V4(dst)),
+                }
+            }
+            pub fn local_addr(&self) -> io::Result<SocketAddr> {
+                match self {
+                    UdpSocket::Real(s) => s.local_addr(),
+                    UdpSocket::Virtual { addr, .. } => Ok(SocketAddr::V4(*addr)),
+                }
+            }
+        }
+        impl Drop for UdpSocket {
+            fn drop(&mut self) {
+                if let UdpSocket::Virtual { sock, .. } = self {
+                    if let Some(h) = vh::hooks() {
+                        h.udp_close(*sock);
+                    }
+                }
+            }
+        }
+    }
+}
+
+// ----------------------------------------------------------------------------------- parking_lot
+pub mod parking_lot_shim {
+    pub use ::parking_lot::*;
+    use crate::verif_hooks as vh;
+    use std::mem::ManuallyDrop;
+
+    pub struct Mutex<T> {
+        inner: ::parking_lot::Mutex<T>,
+        id: usize,
+    }
+    pub struct MutexGuard<'a, T> {
+        g: ManuallyDrop<::parking_lot::MutexGuard<'a, T>>,
+        id: usize,
+    }
+    impl<T> Mutex<T> {
+        pub fn new(t: T) -> Self {
+            Mutex { inner: ::parking_lot::Mutex::new(t), id: vh::next_id() }
+        }
+        pub fn lock(&self) -> MutexGuard<'_, T> {
+            if let Some(h) = vh::hooks() {
+                h.mutex_lock(self.id);
+            }
+            MutexGuard { g: ManuallyDrop::new(self.inner.lock()), id: self.id }
+        }
+    }
+    impl<T> std::ops::Deref for Mutex<T> {
+        type Target = ::parking_lot::Mutex<T>;
+        fn deref(&self) -> &Self::Target {
+            &self.inner
+        }
+    }
+    impl<'a, T> Drop for MutexGuard<'a, T> {
+        fn drop(&mut self) {
+            unsafe { ManuallyDrop::drop(&mut self.g) };
+            if let Some(h) = vh::hooks() {
+                h.mutex_unlock(self.id);
+            }
+        }
+    }
+    impl<'a, T> std::ops::Deref for MutexGuard<'a, T> {
+        type Target = T;
+        fn deref(&self) -> &T {
+            &self.g
+        }
+    }
+    impl<'a, T> std::ops::DerefMut for MutexGuard<'a, T> {
+        fn deref_mut(&mut self) -> &mut T {
+            &mut self.g
+        }
+    }
+    pub struct Condvar {
+        inner: ::parking_lot::Condvar,
+        id: usize,
+    }
+    impl Condvar {
+        pub fn new() -> Self {
+            Condvar { inner: ::parking_lot::Condvar::new(), id: vh::next_id() }
+        }
+        pub fn wait<T>(&self, guard: &mut MutexGuard<'_, T>) {
+            match vh::hooks() {
+                Some(h) => {
+                    let (cv, m) = (self.id, guard.id);
+                    ::parking_lot::MutexGuard::unlocked(&mut guard.g, || h.cv_wait(cv, m));
+                }
+                None => self.inner.wait(&mut guard.g),
+            }
+        }
+        pub fn notify_one(&self) -> bool {
+            match vh::hooks() {
+                Some(h) => {
+                    h.cv_notify(self.id, false);
+                    true
+                }
+                None => self.inner.notify_one(),
+            }
+        }
+        pub fn notify_all(&self) -> usize {
+            match vh::hooks() {
+                Some(h) => {
+                    h.cv_notify(self.id, true);
+                    0
+                }
+                None => self.inner.notify_all(),
+            }
+        }
+    }
+}
+
+// --------------------------------------------------------------------------------------- dashmap
+pub mod dashmap_shim {
+    pub use ::dashmap::*;
+    use crate::verif_hooks as vh;
+    use std::hash::{BuildHasher, Hash};
+
+    pub struct DashMap<K, V, S = std::collections::hash_map::RandomState>(::dashmap::DashMap<K, V, S>);
+    pub struct DashSet<K, S = std::collections::hash_map::RandomState>(::dashmap::DashSet<K, S>);
+
+    impl<K: Eq + Hash, V, S: Default + BuildHasher + Clone> Default for DashMap<K, V, S> {
+        fn default() -> Self {
+            DashMap(Default::default())
+        }
+    }
+    impl<K: Eq + Hash, S: Default + BuildHasher + Clone> Default for DashSet<K, S> {
+        fn default() -> Self {
+            DashSet(Default::default())
+        }
+    }
+    impl<K, V, S> std::ops::Deref for DashMap<K, V, S> {
+        type Target = ::dashmap::DashMap<K, V, S>;
+        fn deref(&self) -> &Self::Target {
+            &self.0
+        }
+    }
+    impl<K, S> std::ops::Deref for DashSet<K, S> {
+        type Target = ::dashmap::DashSet<K, S>;
+        fn deref(&self) -> &Self::Target {
+            &self.0
+        }
+    }
+    /// A value that keeps scheduling points switched off while a shard lock is held.
+    pub struct Held<G>(G, #[allow(dead_code)] vh::DepthGuard);
+    impl<G> std::ops::Deref for Held<G> {
+        type Target = G;
+        fn deref(&self) -> &G {
+            &self.0
+        }
+    }
+    impl<G> std::ops::DerefMut for Held<G> {
+        fn deref_mut(&mut self) -> &mut G {
+            &mut self.0
+        }
+    }
+    impl<G: Iterator> Iterator for Held<G> {
+        type Item = G::Item;
+        fn next(&mut self) -> Option<G::Item> {
+            self.0.next()
+        }
+    }
+
+    /// A read reference that keeps scheduling points switched off while the shard lock is held.
+    pub struct HeldRef<'a, K, V>(::dashmap::mapref::one::Ref<'a, K, V>, #[allow(dead_code)] vh::DepthGuard);
+    impl<'a, K: Eq + Hash, V> HeldRef<'a, K, V> {
+        pub fn key(&self) -> &K {
+            self.0.key()
+        }
+        pub fn value(&self) -> &V {
+            self.0.value()
+        }
+        pub fn pair(&self) -> (&K, &V) {
+            self.0.pair()
+        }
+    }
+    impl<'a, K: Eq + Hash, V> std::ops::Deref for HeldRef<'a, K, V> {
+        type Target = V;
+        fn deref(&self) -> &V {
+            self.0.value()
+        }
+    }
+    pub struct HeldRefMut<'a, K, V>(
+        pub(crate) ::dashmap::mapref::one::RefMut<'a, K, V>,
+        #[allow(dead_code)] pub(crate) vh::DepthGuard,
+    );
+    impl<'a, K: Eq + Hash, V> HeldRefMut<'a, K, V> {
+        pub fn key(&self) -> &K {
+            self.0.key()
+        }
+        pub fn value(&self) -> &V {
+            self.0.value()
+        }
+        pub fn value_mut(&mut self) -> &mut V {
+            self.0.value_mut()
+        }
+    }
+    impl<'a, K: Eq + Hash, V> std::ops::Deref for HeldRefMut<'a, K, V> {
+        type Target = V;
+        fn deref(&self) -> &V {
+            self.0.value()
+        }
+    }
+    impl<'a, K: Eq + Hash, V> std::ops::DerefMut for HeldRefMut<'a, K, V> {
+        fn deref_mut(&mut self) -> &mut V {
+            self.0.value_mut()
+        }
+    }
+
+    impl<K: Eq + Hash, V, S: BuildHasher + Clone> DashMap<K, V, S> {
+        fn y(&self, what: &'static str) {
+            vh::yield_point(what, self as *const _ as usize);
+        }
+        pub fn insert(&self, k: K, v: V) -> Option<V> {
+            self.y("map.insert");
+            self.0.insert(k, v)
+        }
+        pub fn remove<Q>(&self, k: &Q) -> Option<(K, V)>
+        where
+            K: std::borrow::Borrow<Q>,
+            Q: Hash + Eq + ?Sized,
+        {
+            self.y("map.remove");
+            self.0.remove(k)
+        }
+        pub fn contains_key<Q>(&self, k: &Q) -> bool
+        where
+            K: std::borrow::Borrow<Q>,
+            Q: Hash + Eq + ?Sized,
+        {
+            self.y("map.contains_key");
+            self.0.contains_key(k)
+        }
+        pub fn len(&self) -> usize {
+            self.y("map.len");
+            self.0.len()
+        }
+        pub fn get<Q>(&self, k: &Q) -> Option<HeldRef<'_, K, V>>
+        where
+            K: std::borrow::Borrow<Q>,
+            Q: Hash + Eq + ?Sized,
+        {
+            self.y("map.get");
+            let g = vh::DepthGuard::new();
+            self.0.get(k).map(|r| HeldRef(r, g))
+        }
+        pub fn get_mut<Q>(&self, k: &Q) -> Option<HeldRefMut<'_, K, V>>
+        where
+            K: std::borrow::Borrow<Q>,
+            Q: Hash + Eq + ?Sized,
+        {
+            self.y("map.get_mut");
+            let g = vh::DepthGuard::new();
+            self.0.get_mut(k).map(|r| HeldRefMut(r, g))
+        }
+        pub fn iter(&self) -> Held<::dashmap::iter::Iter<'_, K, V, S, ::dashmap::DashMap<K, V, S>>> {
+            self.y("map.iter");
+            Held(self.0.iter(), vh::DepthGuard::new())
+        }
+        pub fn entry(&self, k: K) -> mapref::entry::Entry<'_, K, V> {
+            self.y("map.entry");
+            let g = vh::DepthGuard::new();
+            match self.0.entry(k) {
+                ::dashmap::mapref::entry::Entry::Occupied(e) => {
+                    mapref::entry::Entry::Occupied(mapref::entry::OccupiedEntry(e, g))
+                }
+                ::dashmap::mapref::entry::Entry::Vacant(e) => {
+                    mapref::entry::Entry::Vacant(mapref::entry::VacantEntry(e, g))
+                }
+            }
+        }
+    }
+    impl<K: Eq + Hash, S: BuildHasher + Clone> DashSet<K, S> {
+        pub fn insert(&self, k: K) -> bool {
+            vh::yield_point("set.insert", self as *const _ as usize);
+            self.0.insert(k)
+        }
+        pub fn contains<Q>(&self, k: &Q) -> bool
+        where
+            K: std::borrow::Borrow<Q>,
+            Q: Hash + Eq + ?Sized,
+        {
+            vh::yield_point("set.contains", self as *const _ as usize);
+            self.0.contains(k)
+        }
+        pub fn len(&self) -> usize {
+            vh::yield_point("set.len", self as *const _ as usize);
+            self.0.len()
+        }
+    }
+    pub mod mapref {
+        pub use ::dashmap::mapref::{multiple, one};
+        pub mod entry {
+            use crate::verif_hooks as vh;
+            pub enum Entry<'a, K, V> {
+                Occupied(OccupiedEntry<'a, K, V>),
+                Vacant(VacantEntry<'a, K, V>),
+            }
+            pub struct OccupiedEntry<'a, K, V>(
+                pub(crate) ::dashmap::mapref::entry::OccupiedEntry<'a, K, V>,
+                pub(crate) vh::DepthGuard,
+            );
+            pub struct VacantEntry<'a, K, V>(
+                pub(crate) ::dashmap::mapref::entry::VacantEntry<'a, K, V>,
+                pub(crate) vh::DepthGuard,
+            );
+            impl<'a, K: Eq + std::hash::Hash, V> VacantEntry<'a, K, V> {
+                pub fn insert(self, v: V) -> super::super::HeldRefMut<'a, K, V> {
+                    super::super::HeldRefMut(self.0.insert(v), self.1)
+                }
+            }
+            impl<'a, K: Eq + std::hash::Hash, V> Entry<'a, K, V> {
+                pub fn or_insert(self, v: V) -> super::super::HeldRefMut<'a, K, V> {
+                    match self {
+                        Entry::Occupied(e) => super::super::HeldRefMut(e.0.into_ref(), e.1),
+                        Entry::Vacant(e) => e.insert(v),
+                    }
+                }
+                pub fn or_insert_with(
+                    self,
+                    f: impl FnOnce() -> V,
+                ) -> super::super::HeldRefMut<'a, K, V> {
+                    match self {
+                        Entry::Occupied(e) => super::super::HeldRefMut(e.0.into_ref(), e.1),
+                        Entry::Vacant(e) => e.insert(f()),
+                    }
+                }
+            }
+            impl<'a, K: Eq + std::hash::Hash, V> std::ops::Deref for OccupiedEntry<'a, K, V> {
+                type Target = ::dashmap::mapref::entry::OccupiedEntry<'a, K, V>;
+                fn deref(&self) -> &Self::Target {
+                    &self.0
+                }
+            }
+        }
+    }
+}
+
+// ------------------------------------------------------------------------------------------ rand
+pub mod rand_shim {
+    pub use ::rand::*;
+    use crate::verif_hooks as vh;
+
+    pub enum ThreadRng {
+        Real(::rand::rngs::ThreadRng),
+        Sim(std::sync::Arc<dyn vh::Hooks>),
+    }
+    impl RngCore for ThreadRng {
+        fn next_u32(&mut self) -> u32 {
+            self.next_u64() as u32
+        }
+        fn next_u64(&mut self) -> u64 {
+            match self {
+                ThreadRng::Real(r) => r.next_u64(),
+                ThreadRng::Sim(h) => h.rng_u64(),
+            }
+        }
+        fn fill_bytes(&mut self, dest: &mut [u8]) {
+            for chunk in dest.chunks_mut(8) {
+                let v = self.next_u64().to_le_bytes();
+                chunk.copy_from_slice(&v[..chunk.len()]);
+            }
+        }
+        fn try_fill_bytes(&mut self, dest: &mut [u8]) -> Result<(), Error> {
+            self.fill_bytes(dest);
+            Ok(())
+        }
+    }
+    pub fn thread_rng() -> ThreadRng {
+        match vh::hooks() {
+            Some(h) => ThreadRng::Sim(h),
+            None => ThreadRng::Real(::rand::thread_rng()),
+        }
+    }
+}
+
+// ------------------------------------------------------------------------------- crossbeam_utils
+pub mod crossbeam_utils_shim {
+    pub use ::crossbeam_utils::*;
+    pub mod thread {
+        pub use ::crossbeam_utils::thread::ScopedJoinHandle;
+        use crate::verif_hooks as vh;
+        use ::crossbeam_utils::thread as real;
+
+        pub struct Scope<'a, 'env> {
+            inner: &'a real::Scope<'env>,
+            tokens: &'a std::sync::Mutex<Vec<u64>>,
+        }
+        struct ExitOnDrop(std::sync::Arc<dyn vh::Hooks>, u64);
+        impl Drop for ExitOnDrop {
+            fn drop(&mut self) {
+                self.0.thread_exit(self.1);
+                vh::set_in_sim(false);
+            }
+        }
+        pub fn scope<'env, F, R>(f: F) -> std::thread::Result<R>
+        where
+            F: for<'a> FnOnce(&Scope<'a, 'env>) -> R,
+        {
+            let tokens = std::sync::Mutex::new(Vec::new());
+            real::scope(|rs| {
+                let s = Scope { inner: rs, tokens: &tokens };
+                let r = f(&s);
+                if let Some(h) = vh::hooks() {
+                    h.scope_wait_all(&tokens.lock().unwrap());
+                }
+                r
+            })
+        }
+        impl<'a, 'env> Scope<'a, 'env> {
+            pub fn spawn<F, T>(&self, f: F) -> ScopedJoinHandle<'a, T>
+            where
+                F: for<'b> FnOnce(&Scope<'b, 'env>) -> T + Send + 'env,
+                T: Send + 'env,
+            {
+                let h = vh::hooks();
+                let token = h.as_ref().map(|h| h.spawn_token(None));
+                if let Some(t) = token {
+                    self.tokens.lock().unwrap().push(t);
+                }
+                self.inner.spawn(move |rs2| {
+                    let _exit = match (h, token) {
+                        (Some(h), Some(t)) => {
+                            vh::set_in_sim(true);
+                            h.thread_enter(t);
+                            Some(ExitOnDrop(h, t))
+                        }
+                        _ => None,
+                    };
+                    let tokens = std::sync::Mutex::new(Vec::new());
+                    let s2 = Scope { inner: rs2, tokens: &tokens };
+                    f(&s2)
+                })
+            }
+        }
+    }
+}
